@@ -32,7 +32,14 @@ pub fn parse_ignore(source: &Path, config: &Config) -> Result<Option<Gitignore>>
         let mut builder = GitignoreBuilder::new(source);
         // Only read a regular file; opening e.g. a FIFO of that name
         // would block forever.
-        if gifile.is_file() {
+        // (A stat that fails for any reason other than the file being
+        // absent must not quietly switch the filter off.)
+        let is_file = match gifile.metadata() {
+            Ok(m) => m.is_file(),
+            Err(e) if e.kind() == ErrorKind::NotFound => false,
+            Err(e) => return Err(e.into()),
+        };
+        if is_file {
             // add() reports lines it could not read or parse (and
             // stops reading at undecodable bytes); carrying on would
             // silently copy things the file excludes.
